@@ -97,6 +97,18 @@ func (nb *nativeBuilder) bin(pkg string) (string, error) {
 	for _, f := range vfiles {
 		repl[filepath.Join(nb.repo, "zzvrt", filepath.Base(f))] = f
 	}
+	// harness files of every package (helpers exported across packages live in overlays too)
+	if dirs, err := os.ReadDir(nb.hdir); err == nil {
+		for _, d := range dirs {
+			if !d.IsDir() || d.Name() == "zzvrt" || d.Name() == pkg {
+				continue
+			}
+			others, _ := filepath.Glob(filepath.Join(nb.hdir, d.Name(), "*.go"))
+			for _, f := range others {
+				repl[filepath.Join(nb.repo, d.Name(), "zz_verif_"+filepath.Base(f))] = f
+			}
+		}
+	}
 	files, _ := filepath.Glob(filepath.Join(nb.hdir, pkg, "*.go"))
 	var names []string
 	pkgName := ""
